@@ -195,9 +195,9 @@ def value_level(run, tier, nprng, walk, torch_too=False, prop="C02"):
         if not ok:
             continue
         compared += 1
-        x = nprng.randn(N) * (3.0 if k % 2 else 0.01)
+        x = nprng.randn(N) * (3.0, 0.01, 1e-4, 0.0, 1e-7)[(k // 8) % 5]  # loud, quiet, below the log floor, digital silence
         row = rowidx[(L, S, st, N)]
-        exp = V.expected_matrix(x, row, window, D, filts, bank.is_real, power, log, energy, walk)
+        exp, borderline = V.expected_matrix(x, row, window, D, filts, bank.is_real, power, log, energy, walk)
         outs = [("numpy", c.compute_full(x))]
         if torch_too and (N >= L or N < L // 2 + 1):  # C14 is stated for N >= frame_length and for N < frame_length//2+1
             tc = PyTorchSTFTFrameComputer.from_stft_frame_computer(c, filter_type=torch.cdouble, window_type=torch.double)
@@ -206,6 +206,7 @@ def value_level(run, tier, nprng, walk, torch_too=False, prop="C02"):
             if len(outs) < 2:
                 continue
             exp = outs[0][1]  # C14's own observable: torch against compute_full
+            borderline = borderline | V.near_floor(exp)
             outs = [("torch_vs_numpy", outs[1][1])]
         for name, got in outs:
             run.evaluations += 1
@@ -213,7 +214,7 @@ def value_level(run, tier, nprng, walk, torch_too=False, prop="C02"):
             if got.shape != exp.shape:
                 what = "shape %s, definition %s" % (got.shape, exp.shape)
             else:
-                okm = np.isclose(got, exp, rtol=1e-7, atol=1e-10) | V.near_floor(exp)
+                okm = np.isclose(got, exp, rtol=1e-7, atol=1e-10) | borderline
                 if not okm.all():
                     kk, ii = np.argwhere(~okm)[0]
                     what = "frame %d coeff %d: got %r, definition %r" % (kk, ii, float(got[kk, ii]), float(exp[kk, ii]))
